@@ -30,6 +30,8 @@ def states(tier, seed):
         st.append(dict(part="stress", layout=lay, side=side, ny=ny, model=model, fam=fam))
         if lay == "swept":
             st.append(dict(part="stress", layout=lay, side=side, ny=ny, model=model, gscale=1.0e-3, fam=fam))
+            # sub-millimetre elements (a centimetre-sized specimen): no absolute length may be built into the element frame
+            st.append(dict(part="stress", layout=lay, side=side, ny=ny, model=model, gscale=1.0e-4, fam=fam))
     for N, model, pat, mag, yld, rho in itertools.product(range(1, 9), ["tube", "wingbox"], ["equal", "peak", "ladder", "zeros", "two_max"], [0.0, 1.0, 1e6, 1e9, 1e12], [1.0, 2e8], [10.0, 100.0]):
         st.append(dict(part="ks", N=N, model=model, pattern=pat, mag=mag, yld=yld, rho=rho, fam=fam))
     # the distances that turn curvature into the extreme-fibre bending stresses of the wingbox (htop, hbottom): geometric depth of
